@@ -231,6 +231,28 @@ class SymKit(KitBase):
     def setitem(self, v, i, value):
         self.I.setitem(wrap(v), wrap(i), wrap(value))
 
+    def scalar(self, v):
+        """Value of a scalar that may be delivered as a 0-d / 1x1 array."""
+        from .ndarray import NDArr
+        if isinstance(v, NDArr):
+            e = self.lib.numpy.item(self.I, v, None)
+            return unwrap(e)
+        return v
+
+    def expit(self, x):
+        return unwrap(self.lib.m_expit(self.I, wrap(x), None))
+
+    def with_class_attrs(self, cls, attrs, thunk):
+        """Run thunk with class attributes temporarily set (e.g. Atom._data_context)."""
+        ov = self.I.class_attr_overrides.setdefault(cls, {})
+        saved = dict(ov)
+        ov.update({k: wrap(v) for k, v in attrs.items()})
+        try:
+            return thunk()
+        finally:
+            ov.clear()
+            ov.update(saved)
+
     def set_variant_data(self, lifted_ds, native_ds, X):
         """Replace the data array of a (lifted) single-variant dataslate by X."""
         v = self.I.getattr(lifted_ds, "_variants")[0]
@@ -549,6 +571,24 @@ class ConcKit(KitBase):
 
     def register_source(self, fn, src, label="generated"):
         pass
+
+    def scalar(self, v):
+        import numpy as np
+        return float(np.asarray(v).reshape(-1)[0]) if isinstance(v, np.ndarray) else v
+
+    def expit(self, x):
+        import math
+        return 1 / (1 + math.exp(-x))
+
+    def with_class_attrs(self, cls, attrs, thunk):
+        saved = {k: cls.__dict__.get(k) for k in attrs}
+        for k, v in attrs.items():
+            setattr(cls, k, v)
+        try:
+            return thunk()
+        finally:
+            for k, v in saved.items():
+                setattr(cls, k, v)
 
     def set_variant_data(self, lifted_ds, native_ds, X):
         native_ds._variants[0].data = X
